@@ -4,12 +4,12 @@ import "fmt"
 
 // Hand-curated named types: the shapes the properties name explicitly.
 
-func ts(k Kind) *TypeSpec               { return &TypeSpec{Kind: k} }
+func ts(k Kind) *TypeSpec                  { return &TypeSpec{Kind: k} }
 func tref(name string, ptr bool) *TypeSpec { return &TypeSpec{Kind: KStruct, Ref: name, Ptr: ptr} }
-func tlist(e *TypeSpec) *TypeSpec       { return &TypeSpec{Kind: KList, Elem: e} }
-func tset(e *TypeSpec) *TypeSpec        { return &TypeSpec{Kind: KSet, Elem: e} }
-func tmap(k, v *TypeSpec) *TypeSpec     { return &TypeSpec{Kind: KMap, Key: k, Elem: v} }
-func tenum(n string) *TypeSpec          { return &TypeSpec{Kind: KEnum, Named: n} }
+func tlist(e *TypeSpec) *TypeSpec          { return &TypeSpec{Kind: KList, Elem: e} }
+func tset(e *TypeSpec) *TypeSpec           { return &TypeSpec{Kind: KSet, Elem: e} }
+func tmap(k, v *TypeSpec) *TypeSpec        { return &TypeSpec{Kind: KMap, Key: k, Elem: v} }
+func tenum(n string) *TypeSpec             { return &TypeSpec{Kind: KEnum, Named: n} }
 
 type fb struct {
 	s *StructSpec
